@@ -66,7 +66,10 @@ def problems():
                 except Exception as e:  # noqa
                     end = repr(e)
                 if take is not None:
-                    await stream.aclose()
+                    try:
+                        await stream.aclose()
+                    except BaseException as e:  # noqa
+                        out.append(f"closing an abandoned stream raised {e!r} into the consumer")
                 if check_ctx and context_now() != before:
                     out.append("after the stream ended the consumer's context is changed")
             want = items if take is None else items[:take]
@@ -107,7 +110,7 @@ def problems():
                         async for x in stream:
                             break
                         await stream.aclose()
-                except Exception as e:  # noqa
+                except BaseException as e:  # noqa
                     out.append(f"stream created {depth} scope(s) deep, consumed after they were left: ended with {e!r}")
                 for _ in range(3):
                     await asyncio.sleep(0)
